@@ -59,9 +59,22 @@ def run(ctx):
                    [('write', 'main', 'old'), ('load', False), ('empty', 'main'), ('load', False)],
                    [('write', 'main', 'fixed'), ('write', 'd1/b', 'old'), ('load', False), ('delete', 'd1/b'), ('load', False)],
                    [('write', 'd1/a', 'alias'), ('load', False), ('setopt', not en), ('load', True), ('setopt', en), ('load', True)]]
-            for style in (sorted({rng.randrange(len(lc.STYLES))} | ({len(lc.STYLES) - 1} if not en else set())) if q else range(len(lc.STYLES))):
+            ns = len(lc.STYLES)
+            off = rng.randrange(ns)
+            for rnd in ([0] if q else range(ns)):
                 traces = []
-                for h in hs:
+                styles_used = []
+                for hi, h in enumerate(hs):
+                    # textual style of the two default check strings: rotated over the rows; rows whose outcome
+                    # depends on a particular spelling get that spelling in the quick tier too (an old-name
+                    # override that reads like the deprecated default -> the plain style; no override at all
+                    # -> also the style whose check strings differ in letter case only)
+                    style = (hi + off + rnd) % ns
+                    if rnd == 0 and any(op[0] == 'write' and op[2] == 'oldsame' for op in h):
+                        style = 0
+                    elif rnd == 0 and not any(op[0] == 'write' for op in h) and hi % 2 == 0:
+                        style = ns - 1
+                    styles_used.append(style)
                     dfl = lc.defaults_for(variant, style, reason=rng.choice(['r', 'because: "x"', '']) or 'r',
                                           since=rng.choice(['s', '2025.1', 'Z']))
                     traces.append(lc.run_history(rng, variant, en, h, defaults=dfl))
@@ -71,9 +84,9 @@ def run(ctx):
                     wr = ['%s:%s' % (e['f'], e['kind']) for e in tr if e['op'] == 'write']
                     ctx.violation('override-table:%s:enforce_new=%s:%s' % (variant, en, '+'.join(sorted(wr)) or 'no-override'),
                                   'decision for a policy with a deprecated predecessor differs from the override table: ' + why,
-                                  {'variant': variant, 'enforce_new_defaults': en, 'check_string_style': lc.STYLES[style], 'why': why, 'trace': tr})
+                                  {'variant': variant, 'enforce_new_defaults': en, 'check_string_style': lc.STYLES[styles_used[idx]], 'why': why, 'trace': tr})
                 if len(ctx.samples) < 5:
-                    ctx.sample({'variant': variant, 'enforce_new_defaults': en, 'style': lc.STYLES[style], 'trace': traces[-1]})
+                    ctx.sample({'variant': variant, 'enforce_new_defaults': en, 'style': lc.STYLES[styles_used[-1]], 'trace': traces[-1]})
     ctx.exhaustive = True
     ctx.cover.update({'table_rows': rows, 'rows_x_styles_run': n, 'variants': lc.VARIANTS})
     ctx.assumptions += ['an old-name override textually equal to the deprecated default is left unconstrained by the statement and is not generated',
